@@ -277,7 +277,9 @@ def r01_1(ctx):
         # structure-driven exemptions, verified: every recursive call passes a reference to the named type
         exempt = None
         for tag, (tyname, why) in STRUCTURE_DRIVEN.items():
-            if all(tag in n for n in names):
+            # the group is the tagged function and helpers it was split into: every recursive call inside the group, whoever
+            # makes it, has to pass a reference to the named type
+            if any(tag in n for n in names):
                 okk = True
                 for a in c:
                     for b in edges.get(a, ()):
